@@ -74,27 +74,28 @@ Theorem C07_err_fits_bound : forall (I : err_inst) (w : N -> Q) (x : N -> PathEn
 Proof. exact err_fits_bound. Qed.
 Print Assumptions C07_err_fits_bound.
 
-(* get_objective_value() (plain sum of the errors) is the solver objective when no scaling differs from 1 *)
-Theorem C07_klae_reported_objective_unscaled : forall (I : err_inst) (a : var -> Q),
-  (forall e, In e (basic_edges I) -> (scale_of I e == 1)%Q) ->
+(* get_objective_value() of the code as it is (since /repo 158493f: errors weighed by their scaling)
+   equals the solver objective for every scaling and every assignment *)
+Theorem C07_klae_reported_objective : forall (I : err_inst) (a : var -> Q),
   (klae_reported_objective_code I a == objective a (encode_klae I))%Q.
-Proof. exact klae_reported_objective_unscaled. Qed.
-Print Assumptions C07_klae_reported_objective_unscaled.
+Proof. exact klae_reported_objective. Qed.
+Print Assumptions C07_klae_reported_objective.
 
-(* ... and differs from it at an OPTIMAL assignment when an edge with non-zero error is scaled
-   (open finding klae_objective_unscaled) *)
-Theorem C07_klae_objective_refuted : exists I a,
+(* documentation of the behaviour before 158493f (klae_reported_objective_old = plain sum of the errors):
+   it differs from the solver objective at an OPTIMAL assignment when an edge with non-zero error is scaled *)
+Theorem C07_klae_objective_old_refuted : exists I a,
   sat a (encode_klae I) /\
   (forall b, sat b (encode_klae I) -> (objective a (encode_klae I) <= objective b (encode_klae I))%Q) /\
-  ~ (klae_reported_objective_code I a == objective a (encode_klae I))%Q.
-Proof. exact klae_objective_refuted. Qed.
-Print Assumptions C07_klae_objective_refuted.
+  ~ (klae_reported_objective_old I a == objective a (encode_klae I))%Q.
+Proof. exact klae_objective_old_refuted. Qed.
+Print Assumptions C07_klae_objective_old_refuted.
 
-(* non-vacuity: the witness instance is well formed and its optimum satisfies the rows with the
-   decoded error 2 on (b,c) and solver objective 1 *)
+(* non-vacuity: the witness instance is well formed, its optimum satisfies the rows with error 2 on (b,c);
+   solver objective 1 = reported objective of the current code; the old code reported 2 *)
 Example C07_witness_sat : sat wit12_a (encode_klae wit12) /\ (objective wit12_a (encode_klae wit12) == 1)%Q /\
-                          (klae_reported_objective_code wit12 wit12_a == 2)%Q /\ wf_graph (eG wit12).
+                          (klae_reported_objective_code wit12 wit12_a == 1)%Q /\
+                          (klae_reported_objective_old wit12 wit12_a == 2)%Q /\ wf_graph (eG wit12).
 Proof.
   split; [apply sat_b_sound; vm_compute; reflexivity|]. split; [vm_compute; reflexivity|].
-  split; [vm_compute; reflexivity|exact wit_graph_wf].
+  split; [vm_compute; reflexivity|]. split; [vm_compute; reflexivity|exact wit_graph_wf].
 Qed.
